@@ -110,6 +110,8 @@ _DT_MODULES = (
     "ramses_tx.protocol",
     "ramses_tx.packet",
     "ramses_tx.command",
+    "ramses_tx.message",
+    "ramses_tx.parsers",
     "ramses_rf.entity_base",
     "ramses_rf.database",
     "ramses_rf.system.heat",
